@@ -65,7 +65,12 @@ def build(cfg):
     cs = lib()
     c, p, N = cfg["cls"], cfg["p"], cfg["N"]
     form = p.get("call") or ""
-    if "np" in form:
+    if "np32" in form:
+        import numpy
+
+        def i(v):
+            return numpy.int32(v)
+    elif "np" in form:
         import numpy
 
         def i(v):
@@ -114,6 +119,11 @@ def build(cfg):
             # integral costs passed as Python ints, as the documentation's
             # examples do
             kw = {k: int(v) for k, v in kw.items()}
+        elif p.get("costs_form") == "np":
+            import numpy
+            kw = {k: numpy.float64(v) for k, v in kw.items()}
+        elif p.get("costs_form") == "frac":
+            kw = {k: Fraction(p[k]) for k in kw}
         if "pos" in form and len(kw) == 4 and "kw" not in form:
             # costs passed positionally in the documented order
             tail = [kw[k] for k in ("uf", "ub", "wd", "rd")]
